@@ -260,6 +260,7 @@ func runC05(c *Ctx) {
 	runC05Lookahead(c)
 	c05Lockstep(c, c.P)
 	c05LocationCopied(c, c.P)
+	c.R.Floor("error-location-fresh", c05ErrorLocationFresh(c, c.P), 20, "error builders given a currentLocation()")
 	// one-based
 	be := newBoundsEngine(p)
 	for fn := range conv {
